@@ -215,7 +215,139 @@ fn scalars() -> Vec<Scalar> {
     push([u64::MAX; 4], "2^256-1");
     push(bits(&[255, 254, 0]), "bits255+254+0");
     push([rng.next(), rng.next(), rng.next(), rng.next() | (1 << 63)], "rand256");
+    drop(push);
+    N_HAND.store(v.len(), std::sync::atomic::Ordering::Relaxed);
+    // ---- generated structured scalars (fixed PRNG, independent of VERIF_SEED so that pool indices are
+    // stable): the shapes that exceptional cases of recoders, window tables and addition formulas depend
+    // on, at positions nobody picked by hand
+    let mut g = Rng::new(0x7363_616c_6172_73);
+    let mut pushg = |l: [u64; 4], name: String| {
+        v.push(Scalar { l, name, lt255: l[3] >> 63 == 0 });
+    };
+    let sub4 = |a: [u64; 4], b: [u64; 4]| -> [u64; 4] {
+        let mut o = [0u64; 4];
+        let mut br = 0u64;
+        for i in 0..4 {
+            let (x, b1) = a[i].overflowing_sub(b[i]);
+            let (y, b2) = x.overflowing_sub(br);
+            o[i] = y;
+            br = (b1 as u64) + (b2 as u64);
+        }
+        o
+    };
+    for i in 0..GEN_SCALARS {
+        let small = 1 + 2 * (g.next() % 16); // odd, < 32
+        let l = match i % 8 {
+            0 => {
+                // 2^a - c
+                let a = 6 + (g.next() % 250) as usize;
+                (sub_small(bit(a), small), format!("gen:2^{}-{}", a, small))
+            }
+            1 => {
+                // 2^a + c
+                let a = 6 + (g.next() % 249) as usize;
+                (add_small(bit(a), small), format!("gen:2^{}+{}", a, small))
+            }
+            2 => {
+                // m*r +- c, enumerated: every c below 20 for m = 1, 2 and both signs
+                let j = (i / 8) as u64;
+                let (m, minus, c) = (1 + j % 2, (j / 2) % 2 == 0, j / 4);
+                let base = if m == 1 { R } else { add4(R, R).0 };
+                if minus {
+                    (sub_small(base, c), format!("gen:{}r-{}", m, c))
+                } else {
+                    (add_small(base, c), format!("gen:{}r+{}", m, c))
+                }
+            }
+            3 => {
+                // 2 to 4 set bits anywhere below bit 255
+                let n = 2 + (g.next() % 3) as usize;
+                let pos: Vec<usize> = (0..n).map(|_| (g.next() % 255) as usize).collect();
+                (bits(&pos), format!("gen:bits{:?}", pos))
+            }
+            4 => {
+                // NAF-sparse: sum of +-d * 2^p, top term positive
+                let n = 2 + (g.next() % 4) as usize;
+                let mut pos: Vec<usize> = (0..n).map(|_| (g.next() % 250) as usize).collect();
+                pos.sort();
+                pos.dedup();
+                let mut acc = [0u64; 4];
+                let mut name = String::from("gen:naf");
+                for (j, &p) in pos.iter().enumerate().rev() {
+                    let d = 1 + 2 * (g.next() % 8);
+                    let mut term = [0u64; 4];
+                    term[p / 64] = d << (p % 64);
+                    if p % 64 > 59 && p / 64 < 3 {
+                        term[p / 64 + 1] = d >> (64 - p % 64);
+                    }
+                    let neg = j + 1 != pos.len() && g.next() % 2 == 0;
+                    if neg && gt4(&acc, &term) {
+                        acc = sub4(acc, term);
+                        name.push_str(&format!("-{}*2^{}", d, p));
+                    } else {
+                        acc = add4(acc, term).0;
+                        name.push_str(&format!("+{}*2^{}", d, p));
+                    }
+                }
+                acc[3] &= u64::MAX >> 1;
+                (acc, name)
+            }
+            5 => {
+                // a run of ones from bit a to bit b
+                let a = (g.next() % 200) as usize;
+                let b = a + 1 + (g.next() % (254 - a as u64)) as usize;
+                (sub4(bit(b), bit(a)), format!("gen:ones[{}..{})", a, b))
+            }
+            6 => {
+                // limb patterns
+                let mut l = [0u64; 4];
+                let mut name = String::from("gen:limbs");
+                for x in l.iter_mut() {
+                    let (v, n) = match g.next() % 6 {
+                        0 => (0, "0"),
+                        1 => (1, "1"),
+                        2 => (u64::MAX, "F"),
+                        3 => (1u64 << 63, "8"),
+                        4 => (u64::MAX >> 1, "7"),
+                        _ => (g.next(), "x"),
+                    };
+                    *x = v;
+                    name.push_str(n);
+                }
+                l[3] &= u64::MAX >> 1;
+                (l, name)
+            }
+            _ => {
+                // a short random scalar (1..=4 limbs, random bit length)
+                let nb = 1 + (g.next() % 255) as usize;
+                let mut l = [g.next(), g.next(), g.next(), g.next()];
+                for b in nb..256 {
+                    l[b / 64] &= !(1u64 << (b % 64));
+                }
+                l[(nb - 1) / 64] |= 1u64 << ((nb - 1) % 64);
+                (l, format!("gen:rand{}bits", nb))
+            }
+        };
+        pushg(l.0, l.1);
+    }
     v
+}
+
+/// number of generated structured scalars appended to the hand-made pool
+pub const GEN_SCALARS: usize = 640;
+static N_HAND: std::sync::atomic::AtomicUsize = std::sync::atomic::AtomicUsize::new(0);
+/// number of hand-made scalars at the head of the pool (the generated ones follow)
+pub fn n_hand() -> usize {
+    let _ = spools();
+    N_HAND.load(std::sync::atomic::Ordering::Relaxed)
+}
+fn gt4(a: &[u64; 4], b: &[u64; 4]) -> bool {
+    for i in (0..4).rev() {
+        if a[i] != b[i] {
+            return a[i] > b[i];
+        }
+    }
+    false
 }
 
 pub fn spools() -> &'static SPools {
